@@ -321,8 +321,7 @@ def handle (m : M) (line : String) : M × String :=
       if kind == "kk" then
         match parseMat? dim 1 a, parseMat? dim 1 b with
         | some A, some B =>
-          let z := (Mat.mul (Mat.dagger A) B).f 0 0
-          (m, showRat z.normSq)
+          (m, showRat (overlapKet A B))
         | _, _ => (m, "bad args")
       else if kind == "kd" then
         match parseMat? dim 1 a, parseMat? dim dim b with
